@@ -300,16 +300,17 @@ func runRange(property string, p Part, tier string, seed uint64, from, n int, en
 				e.RunIndex = i
 				e.Tier = tier
 				e.Params = p.Params
+				var res *Result
 				if p.ProcessLevel {
-					d, err := os.MkdirTemp(env.Scratch, fmt.Sprintf("run-%d-", i))
-					if err != nil {
-						Harnessf("scratch: %v", err)
-					}
-					e.Scratch = d
-				}
-				res := Exec(property, p.Fn, NewTape(rs), &e)
-				if p.ProcessLevel {
-					os.RemoveAll(e.Scratch)
+					res = ExecRetry(property, p.Fn, rs, &e, func() string {
+						d, err := os.MkdirTemp(env.Scratch, fmt.Sprintf("run-%d-", i))
+						if err != nil {
+							Harnessf("scratch: %v", err)
+						}
+						return d
+					})
+				} else {
+					res = Exec(property, p.Fn, NewTape(rs), &e)
 				}
 				mu.Lock()
 				st.Runs++
